@@ -5,6 +5,16 @@
    No proofs here. *)
 From C14 Require Import Base.
 
+(* ---- how a test, a predicate or a sort predicate is read ------------------------------------------------ *)
+(* Every call site in the modelled files has the shape `x.Call(s, args, d2) != nil` (find.go, position.go,
+   count.go, delete.go, substitute.go `maybe`, delete-duplicates.go `has`, member.go, assoc.go, search.go,
+   mismatch.go `== nil` for the negation, sort.go / stable-sort.go `return predicate.Call(...) != nil`,
+   merge.go `less = ... != nil`, union.go, intersection.go, set-difference.go, subsetp.go, every.go ...):
+   the answer of the user function is reduced to "not nil".  That is why the definitions below take the
+   boolean test_app / pred_app: for every style of answer the decision is that boolean (Proofs.v,
+   answer_decided). *)
+Definition go_decides (g : gbool) : bool := not_nil_g g.
+
 (* ---- pkg/cl/seqfunvars.go: setKeysItem / setKeysIf ---------------------------------------- *)
 (* The keyword switch knows :key :test :start :end :count :from-end; anything else (:test-not) is a
    TypePanic; :count wants a fixnum (nil is a TypePanic); sfv.end = -1 is None; count = MaxInt is None. *)
